@@ -166,6 +166,8 @@ func (e *Eval) static(fr *Frame, cc *ssa.CallCommon, fn *ssa.Function, args []Va
 	}
 	if fn.Pkg != nil && strings.HasPrefix(fn.Pkg.Pkg.Path(), modPath) {
 		e.ghostCount(st, "$c."+relName(fn))
+	} else {
+		e.ghostCount(st, "$c."+fn.String())
 	}
 	if k.Wrapper != nil {
 		return e.applyWrapper(fr, k, fn, pkg, pnames, ptypes, args, st, cur, site)
@@ -267,6 +269,9 @@ func (e *Eval) applyContract(fr *Frame, k *Contract, pkg *ssa.Package, pnames []
 			c.Unsupported("%v", err)
 			continue
 		}
+		if mentionsLocalCounters(cl.Text) {
+			continue // holds trivially at the callee's entry (its counters start at zero)
+		}
 		if len(cl.Props) > 0 {
 			e.oblige(fmt.Sprintf("requires@%s/%s", site, clauseLabel(cl, k.Requires)), "requires@call", cl.Props, cur, env.evalGoal(ex), cl.Text, cl.Where)
 		}
@@ -330,8 +335,8 @@ func (e *Eval) applyContract(fr *Frame, k *Contract, pkg *ssa.Package, pnames []
 			c.Unsupported("%v", err)
 			continue
 		}
-		if mentionsLogical(k, cl.Text) {
-			continue // clauses over the callee's logical variables are not used by callers
+		if mentionsLogical(k, cl.Text) || mentionsLocalCounters(cl.Text) {
+			continue // clauses over the callee's logical variables / own call counters are not used by callers
 		}
 		c.Assert(implies(normalCond, env2.evalBool(ex)))
 	}
@@ -722,6 +727,7 @@ func (e *Eval) atClauses(fr *Frame, cc *ssa.CallCommon, name, site, kind string,
 		}
 		env := e.newEnv(e.rootPkg, st, e.entry)
 		e.bindParams(env, e.root)
+		e.bindCells(env, e.root)
 		sig := cc.Signature()
 		off := 0
 		if cc.IsInvoke() {
@@ -881,6 +887,19 @@ func (e *Eval) implsOf(env *Env, iface string) []types.Type {
 		}
 	}
 	return out
+}
+
+var localCounterRe = regexp.MustCompile(`ncalls\("([^"]*)"\)`)
+
+// mentionsLocalCounters: the clause talks about the callee's own
+// per-invocation call counters, which mean nothing in the caller's state.
+func mentionsLocalCounters(text string) bool {
+	for _, m := range localCounterRe.FindAllStringSubmatch(text, -1) {
+		if !ifaceMethodRe.MatchString(m[1]) {
+			return true
+		}
+	}
+	return false
 }
 
 func mentionsLogical(k *Contract, text string) bool {
